@@ -61,6 +61,7 @@ type Engine struct {
 	Transparent map[*ssa.Function]bool
 	Opaque      map[*ssa.Function]bool // recursive spec functions: uninterpreted + one-step unfolding per occurrence
 	Recursive   map[*ssa.Function]bool // opaque, plus the defining equation as a quantified axiom
+	Prefix      map[*ssa.Function]bool // opaque f(s, n, ...) declared to depend only on s[0:n]
 	PureFields  map[string]bool        // pkgpath.Type.field: function-valued fields assumed pure and total
 	unfolding   map[*ssa.Function]bool
 	unfolded    map[string]bool
@@ -136,6 +137,7 @@ func NewEngine(prog *ssa.Program) *Engine {
 	e.Transparent = map[*ssa.Function]bool{}
 	e.Opaque = map[*ssa.Function]bool{}
 	e.Recursive = map[*ssa.Function]bool{}
+	e.Prefix = map[*ssa.Function]bool{}
 	e.PureFields = map[string]bool{}
 	e.initCache = map[*ssa.Package]*State{}
 	e.globRefs = map[*ssa.Global]int{}
